@@ -64,6 +64,7 @@ type streamCase struct {
 	SpareCap    map[string]int      `json:"spare_cap,omitempty"` // spare capacity of the default value slices
 	LongLine    bool                `json:"long_line,omitempty"`
 	Fat         bool                `json:"fat,omitempty"`
+	Big         bool                `json:"big,omitempty"`
 	Sched       []int               `json:"-"`
 }
 
@@ -147,14 +148,28 @@ func genStreamCase(r *kit.Rng, format, work string, id int) streamCase {
 		n = 100 + r.Pick(60)
 		sc.Fat = true
 	}
+	// big compact rounds: hundreds to thousands of one-line targets without blank lines (5 KiB …
+	// 200 KiB), lines of varying length so that buffer boundaries fall anywhere in a line
+	big := id%10 == 6 || id%10 == 7
+	if big {
+		n = []int{150, 400, 900, 1500, 3000}[r.Pick(5)] + r.Pick(100)
+		sc.Big = true
+	}
 	for i := 0; i < n; i++ {
 		method := r.PickStr([]string{"GET", "POST", "PUT", "DELETE"})
 		url := "http://host-" + strconv.Itoa(id) + ":8080/t/" + strconv.Itoa(i)
+		if big {
+			url += "/" + strings.Repeat("p", r.Pick(40))
+		}
 		if r.Chance(0.05) && i > 0 {
 			url = "http://host-" + strconv.Itoa(id) + ":8080/t/" + strconv.Itoa(r.Pick(i)) // a duplicate target: multiset matters
 		}
 		var own [][2]string
-		for j := 0; j < r.Pick(4); j++ {
+		nown := r.Pick(4)
+		if big && !r.Chance(0.1) {
+			nown = 0 // mostly bare one-line targets
+		}
+		for j := 0; j < nown; j++ {
 			own = append(own, [2]string{r.PickStr(keys), r.PickStr(vals)})
 		}
 		if i == longAt {
@@ -164,7 +179,7 @@ func genStreamCase(r *kit.Rng, format, work string, id int) streamCase {
 			own = append(own, [2]string{"X-Fat", strconv.Itoa(i) + strings.Repeat(string(rune('a'+i%26)), 1000+r.Pick(1000))})
 		}
 		var body []byte
-		if r.Chance(0.3) {
+		if r.Chance(0.3) && (!big || r.Chance(0.15)) {
 			body = []byte("body-" + strconv.Itoa(i))
 		}
 		if format == "json" {
@@ -212,7 +227,7 @@ func genStreamCase(r *kit.Rng, format, work string, id int) streamCase {
 				sc.Files[p] = body
 				sb.WriteString("@" + p + "\n")
 			}
-			if len(own) > 0 && body == nil || r.Chance(0.3) {
+			if len(own) > 0 && body == nil || (!big && r.Chance(0.3)) {
 				sb.WriteString("\n")
 			}
 			sc.Expected = append(sc.Expected, expectedTarget(method, url, body, own, &sc))
@@ -384,6 +399,9 @@ func runStream(s *kit.Summary, sc *streamCase) (implLine string) {
 	}
 	if sc.Fat {
 		s.Count(sc.Format + ":fat_round")
+	}
+	if sc.Big {
+		s.Count(fmt.Sprintf("%s:big_compact_round<=%dKiB", sc.Format, 1+len(sc.Src)/1024/25*25+24))
 	}
 	if len(sc.SpareCap) > 0 {
 		s.Count(sc.Format + ":default_with_spare_capacity")
@@ -657,7 +675,7 @@ func rounds(c *run.Ctx, s *kit.Summary, r *kit.Rng, nStatic, nStream int, withDr
 		s.Count(format + ":rounds")
 		s.CountN(format+":targets", len(sc.Expected))
 		s.CountN(format+":callers", sc.Callers)
-		if withDriver {
+		if withDriver && !(sc.Big && len(sc.Expected) > 1000) {
 			sched := randomSchedule(r, sc.Callers, 2*len(sc.Expected)+r.Pick(50))
 			if format == "json" {
 				js.Add(streamOp(&sc, sched), line)
